@@ -53,11 +53,11 @@ def spec_doc(name):
     return doc
 
 
-SWEEP_CODES = [404, 422, 409, 401, 403, 429, 500, 503, 400, 502, 504, 410, 415, 451]
+SWEEP_CODES = [404, 499, 422, 520, 409, 401, 403, 429, 500, 503, 400, 502, 504, 410, 415, 451]  # 499 / 520: error codes without a registered name
 
 
 def cases(tier, seed):
-    # "sweep": a linear history in which every new client brings one more status code, so that the shared core accumulates 1, 2, ... 14
+    # "sweep": a linear history in which every new client brings one more status code, so that the shared core accumulates 1, 2, ... 16
     # exception classes (whatever the core renders from the union - class list, imports, __all__ - is exercised at every size)
     return [{"layout": l, "tier": tier} for l in LAYOUTS] + [{"layout": l, "tier": tier, "sweep": True} for l in LAYOUTS]
 
